@@ -1,6 +1,8 @@
 import OjgVerif.Common.Driver
 import OjgVerif.Sen.Tables
 import OjgVerif.Sen.Writer
+import OjgVerif.Sen.WriterIndent
+import OjgVerif.Json.Spec
 /-! Driver ops of the SEN family (C10, C03sen, C06sen, C07sen). -/
 namespace OjgVerif.Sen
 open OjgVerif
@@ -159,6 +161,26 @@ def handle : List String → String
     | some v =>
       if opts.toList.any (fun c => c ≠ 'n' && c ≠ 'e' && c ≠ 'h' && c ≠ '-') then "bad-op"
       else toHexF (tightVal { omitNil := opts.contains 'n', omitEmpty := opts.contains 'e', html := opts.contains 'h' } v)
+    | none => "bad-op"
+  -- `indent <opts n e h> <tab 0|1> <Indent> <tree>` = sen.Writer with these options (the indented writer when
+  -- `Tab || 0 < Indent`, the tight one otherwise: `senWrite`)
+  | ["indent", opts, tab, ind, tree] =>
+    match parseTree tree, ind.toNat? with
+    | some v, some n =>
+      if opts.toList.any (fun c => c ≠ 'n' && c ≠ 'e' && c ≠ 'h' && c ≠ '-') then "bad-op"
+      else if tab ≠ "0" && tab ≠ "1" then "bad-op"
+      else toHexF (senWrite { omitNil := opts.contains 'n', omitEmpty := opts.contains 'e', html := opts.contains 'h' }
+        { tab := tab = "1", indent := n } v)
+    | _, _ => "bad-op"
+  -- `numadm <hex>`: is the text a complete number literal of the grammar of Props/C10Num.lean (`NumAdm`: RFC 8259
+  -- number, integer part below 9223372036854775800)? `Spec.pNumber t = some (t, [])` is the hypothesis of
+  -- `numAdm_of_pNumber`; the integer part is the digit run after the optional `-`
+  | ["numadm", hx] =>
+    match ofHex hx with
+    | some t =>
+      let ip := (Json.Spec.takeDigits (match t with | 45 :: r => r | _ => t)).1
+      if Json.Spec.pNumber t == some (t, []) && decide (ip.foldl (fun a b => a * 10 + (b.toNat - 48)) 0 < 9223372036854775800)
+      then "1" else "0"
     | none => "bad-op"
   | ["byteclass"] =>
     -- for every byte: its senMap class and what the parser tables do with it where a string or key
